@@ -37,7 +37,7 @@ def run(ctx):
                        "tokens rank-compressed through a 16-position boundary embedding; scripted TokenGenerator"]
     if ctx.tier == "quick":
         lc.model_check(ctx, ["MC_c08a", "MC_c08b_quick"], timeout=600)
-        lc.record_and_validate(ctx, "TestRecordC08", {"VERIF_TRACES": 100}, timeout_tlc=600, label="record/validate")
+        lc.record_and_validate(ctx, "TestRecordC08", {"VERIF_TRACES": 100, "VERIF_NT_FIXED": 1}, timeout_tlc=600, label="record/validate")
     else:
         lc.model_check(ctx, ["MC_c08a", "MC_c08a_t", "MC_c08b"], timeout=2400)
         lc.record_and_validate(ctx, "TestRecordC08", {"VERIF_TRACES": 1200}, timeout_go=1500, timeout_tlc=2400,
